@@ -68,6 +68,14 @@ class GenericQuantity(object):
             raise AssertionError(
                 'Unknown value type to GenericQuantity._build(): %r' % value)
 
+    def _compatible(self, other_value, other_units):
+        # Operands must have the same units; the only dimensionless operand
+        # accepted is a bare zero (a zero-valued quantity of other units is
+        # not).
+        if other_units:
+            return self.has_units(other_units)
+        return is_zero(other_value)
+
     """
     def __new__(cls, value, units):
         q = cls._numeric_class.__new__(cls, value)
@@ -123,16 +131,14 @@ class GenericQuantity(object):
     def __eq__(self, other):
         (self_value, self_units) = self._unpack_qty(self)
         (other_value, other_units) = self._unpack_qty(other)
-        if not is_zero(other) and (not other_units or
-                                   not self.has_units(other_units)):
+        if not self._compatible(other_value, other_units):
             return False
         return self_value == other_value
 
     def __ne__(self, other):
         (self_value, self_units) = self._unpack_qty(self)
         (other_value, other_units) = self._unpack_qty(other)
-        if not is_zero(other) and (not other_units or
-                                   not self.has_units(other_units)):
+        if not self._compatible(other_value, other_units):
             return True
         return self_value != other_value
 
@@ -149,8 +155,7 @@ class GenericQuantity(object):
     def __lt__(self, other):
         (self_value, self_units) = self._unpack_qty(self)
         (other_value, other_units) = self._unpack_qty(other)
-        if (not is_zero(other_value) and
-                (not other_units or not self.has_units(other_units))):
+        if not self._compatible(other_value, other_units):
             raise UnitsError(
                 'Incompatible units %s vs %s in comparison'
                 % (self_units, other_units))
@@ -159,8 +164,7 @@ class GenericQuantity(object):
     def __gt__(self, other):
         (self_value, self_units) = self._unpack_qty(self)
         (other_value, other_units) = self._unpack_qty(other)
-        if (not is_zero(other_value) and
-                (not other_units or not self.has_units(other_units))):
+        if not self._compatible(other_value, other_units):
             raise UnitsError(
                 'Incompatible units %s vs %s in comparison'
                 % (self_units, other_units))
@@ -169,8 +173,7 @@ class GenericQuantity(object):
     def __ge__(self, other):
         (self_value, self_units) = self._unpack_qty(self)
         (other_value, other_units) = self._unpack_qty(other)
-        if (not is_zero(other_value) and
-                (not other_units or not self.has_units(other_units))):
+        if not self._compatible(other_value, other_units):
             raise UnitsError(
                 'Incompatible units %s vs %s in comparison'
                 % (self_units, other_units))
@@ -179,8 +182,7 @@ class GenericQuantity(object):
     def __le__(self, other):
         (self_value, self_units) = self._unpack_qty(self)
         (other_value, other_units) = self._unpack_qty(other)
-        if (not is_zero(other_value) and
-                (not other_units or not self.has_units(other_units))):
+        if not self._compatible(other_value, other_units):
             raise UnitsError(
                 'Incompatible units %s vs %s in comparison'
                 % (self_units, other_units))
@@ -189,8 +191,7 @@ class GenericQuantity(object):
     def __add__(self, other):
         (self_value, self_units) = self._unpack_qty(self)
         (other_value, other_units) = self._unpack_qty(other)
-        if (not is_zero(other_value) and
-                (not other_units or not self.has_units(other_units))):
+        if not self._compatible(other_value, other_units):
             raise UnitsError(
                 'Incompatible units %s vs %s in addition'
                 % (self_units, other_units))
@@ -199,8 +200,7 @@ class GenericQuantity(object):
     def __radd__(self, other):
         (self_value, self_units) = self._unpack_qty(self)
         (other_value, other_units) = self._unpack_qty(other)
-        if (not is_zero(other_value) and
-                (not other_units or not self.has_units(other_units))):
+        if not self._compatible(other_value, other_units):
             raise UnitsError(
                 'Incompatible units %s vs %s in addition'
                 % (self_units, other_units))
@@ -209,8 +209,7 @@ class GenericQuantity(object):
     def __sub__(self, other):
         (self_value, self_units) = self._unpack_qty(self)
         (other_value, other_units) = self._unpack_qty(other)
-        if (not is_zero(other_value) and
-                (not other_units or not self.has_units(other_units))):
+        if not self._compatible(other_value, other_units):
             raise UnitsError(
                 'Incompatible units %s vs %s in subtraction'
                 % (self_units, other_units))
@@ -219,8 +218,7 @@ class GenericQuantity(object):
     def __rsub__(self, other):
         (self_value, self_units) = self._unpack_qty(self)
         (other_value, other_units) = self._unpack_qty(other)
-        if (not is_zero(other_value) and
-                (not other_units or not self.has_units(other_units))):
+        if not self._compatible(other_value, other_units):
             raise UnitsError(
                 'Incompatible units %s vs %s in subtraction'
                 % (self_units, other_units))
